@@ -67,7 +67,7 @@ def expand(repo, cat):
     open(os.path.join(d, "crate", "Cargo.toml"), "w").write(f'[package]\nname = "deserr-verif-expand"\nversion = "0.1.0"\nedition = "2021"\n[dependencies]\ndeserr = {{ path = "{repo}" }}\n[workspace]\n')
     lock = os.path.join(repo, "Cargo.lock")
     if os.path.exists(lock): shutil.copy(lock, os.path.join(d, "crate", "Cargo.lock"))
-    src = "#![allow(dead_code)]\nuse deserr::Deserr;\n" + "\n".join(rust_item(s)[0] for s in cat["structs"]) + "\n" + "\n".join(variant_item(e) for e in cat.get("unit_enums", []))
+    src = "#![allow(dead_code)]\nuse deserr::Deserr;\n" + "\n".join(rust_item(s)[0] for s in cat["structs"]) + "\n" + "\n".join(variant_item(e) for e in cat.get("unit_enums", [])) + "\n" + "\n".join(tagged_item(e)[0] for e in cat.get("tagged_enums", []))
     open(os.path.join(d, "crate", "src", "lib.rs"), "w").write(src)
     e = dict(os.environ); e["CARGO_NET_OFFLINE"] = "true"; e["CARGO_TARGET_DIR"] = os.path.join(BUILD, f"derive-target-{h}")
     e.pop("RUSTUP_TOOLCHAIN", None)
@@ -137,23 +137,27 @@ pub proof fn lemma_@P@_trace_part<@TPB@, E: DeserializeError, V: IntoValue>(es: 
 }
 '''
 
-def gen_struct(s, expanded_path):
-    """-> (raw prelude text for this struct, vspec take block)"""
-    name = s["name"]; P = name.lower()
-    _, tps = rust_item(s)
+def type_params(fields):
+    tps = []
+    for f in fields:
+        for t in re.findall(r"\b([A-Z])\b", f["ty"]):
+            if t not in tps: tps.append(t)
+    return tps
+
+def gen_fields(P, tps, fields, rename_all, deny, loop_no, ctx_inv, ctx_ghost, full_expr_is_whole=True):
+    """specs + annotations for one set of named fields (a struct, or a struct-like enum variant).
+    P: prefix of the generated spec fns; tps: type parameters of the *container*; loop_no: ordinal of the key loop;
+    ctx_inv: invariant lines tying `es` (the entries iterated) and `value0` to the function's parameter;
+    ctx_ghost: ghost declarations for body-start.  Returns (raw_specs, directives_text, helpers dict)."""
     TP = ", ".join(tps); TPB = ", ".join(f"{t}: Deserr<E>" for t in tps)
-    ns = [f for f in s["fields"] if not f.get("skip")]      # non-skipped, declaration order
-    keys = [effective_key(f["ident"], f.get("rename"), s.get("rename_all")) for f in ns]
-    deny = bool(s.get("deny"))
+    ns = [f for f in fields if not f.get("skip")]
+    keys = [effective_key(f["ident"], f.get("rename"), rename_all) for f in ns]
     def lit(k): return '"' + k + '"@'
     raw = []
-    raw.append(f"// ==== derived struct {name}: effective keys {keys} (computed from the description by tools/derive_unit.py), deny_unknown_fields = {deny}\n")
-    raw.append(f"pub struct {name}<{TP}> {{ " + " ".join(f"pub {f['ident']}: {f['ty']}," for f in s["fields"]) + " }\n")
     raw.append(f"/// which non-skipped field (declaration order) an entry key fills: exact, case-sensitive match on the effective key\npub open spec fn {P}_field_of(k: Seq<char>) -> int {{ " +
                " else ".join(f"if k == {lit(k)} {{ {i} }}" for i, k in enumerate(keys)) + (" else { -1 } }\n" if keys else "-1 }\n"))
     raw.append(f"pub open spec fn {P}_accepted() -> Seq<Seq<char>> {{ seq![{', '.join(lit(k) for k in keys)}] }}\n")
     raw.append(f"pub open spec fn {P}_unknown_report(p: Seq<Step>, k: Seq<char>) -> Ev {{ Ev::Report {{ path: p, kind: RKind::UnknownKey {{ key: k, accepted: {P}_accepted() }} }} }}\n")
-    # entry_ok / entry_part
     ok_arms = []; part_arms = []
     for i, f in enumerate(ns):
         T = f["ty"]
@@ -161,34 +165,16 @@ def gen_struct(s, expanded_path):
         part_arms.append(f"if f == {i} {{ if <{T} as Deserr<E>>::accepts(v) {{ Seq::empty() }} else {{ <{T} as Deserr<E>>::spec_trace(v, pk).push(Ev::Handover {{ path: pk }}) }} }}")
     ok_tail = "false" if deny else "true"
     part_tail = f"seq![{P}_unknown_report(p, kv.0@)]" if deny else "Seq::empty()"
-    raw.append(f"pub open spec fn {P}_entry_ok<{TPB}, E: DeserializeError, V: IntoValue>(kv: (String, V)) -> bool {{\n    let f = {P}_field_of(kv.0@); let v = kv.1.spec_into_value();\n    " +
+    raw.append(f"pub open spec fn {P}_entry_ok<{TPB}{', ' if TPB else ''}E: DeserializeError, V: IntoValue>(kv: (String, V)) -> bool {{\n    let f = {P}_field_of(kv.0@); let v = kv.1.spec_into_value();\n    " +
                " else ".join(ok_arms) + (" else { " if ok_arms else "{ ") + ok_tail + " }\n}\n")
-    raw.append(f"pub open spec fn {P}_entry_part<{TPB}, E: DeserializeError, V: IntoValue>(kv: (String, V), p: Seq<Step>) -> Seq<Ev> {{\n    let f = {P}_field_of(kv.0@); let v = kv.1.spec_into_value(); let pk = p.push(Step::Key(kv.0@));\n    " +
+    raw.append(f"pub open spec fn {P}_entry_part<{TPB}{', ' if TPB else ''}E: DeserializeError, V: IntoValue>(kv: (String, V), p: Seq<Step>) -> Seq<Ev> {{\n    let f = {P}_field_of(kv.0@); let v = kv.1.spec_into_value(); let pk = p.push(Step::Key(kv.0@));\n    " +
                " else ".join(part_arms) + (" else { " if part_arms else "{ ") + part_tail + " }\n}\n")
-    raw.append(LEMMAS.replace("@P@", P).replace("@TPB@", TPB).replace("@TP@", TP))
-    # missing(es, p, upto): reports for required non-skipped fields of index < upto that never appeared, in declaration order
+    raw.append(LEMMAS.replace("@P@", P).replace("@TPB@, ", TPB + ", " if TPB else "").replace("@TP@, ", TP + ", " if TP else ""))
     req = [(i, f, keys[i]) for i, f in enumerate(ns) if not f.get("default")]
     pieces = [f"(if upto > {i} && {P}_last(es, es.len() as int, {i}) < 0 {{ seq![miss_report(p, {lit(k)})] }} else {{ Seq::<Ev>::empty() }})" for i, f, k in req]
     raw.append(f"pub open spec fn {P}_missing<V>(es: Seq<(String, V)>, p: Seq<Step>, upto: int) -> Seq<Ev> {{\n    " + (" + ".join(pieces) if pieces else "Seq::<Ev>::empty()") + "\n}\n")
     nF = len(ns)
-    # members
-    req_present = "".join(f" && {P}_last(es, es.len() as int, {i}) >= 0" for i, f, k in req)
-    repr_clauses = "".join(f" && ({P}_last(es, es.len() as int, {i}) >= 0 ==> self.{f['ident']}.represents(es[{P}_last(es, es.len() as int, {i})].1.spec_into_value()))" for i, f in enumerate(ns))
-    members = f'''    /// no fault: every entry is fine (an unknown key is a fault exactly under deny_unknown_fields) and every required field is present
-    open spec fn accepts<V: IntoValue>(value: Value<V>) -> bool {{
-        value is Map && ({{ let es = value->Map_0.entries(); {P}_entries_ok::<{TP}, __Deserr_E, V>(es, es.len() as int){req_present} }})
-    }}
-    /// keep-going run: per entry in enumeration order, then one MissingField per absent required field in declaration order
-    open spec fn spec_trace<V: IntoValue>(value: Value<V>, p: Seq<Step>) -> Seq<Ev> {{
-        if value is Map {{ let es = value->Map_0.entries(); {P}_trace_upto::<{TP}, __Deserr_E, V>(es, p, es.len() as int) + {P}_missing(es, p, {nF}) }}
-        else {{ seq![kind_report(value, p, seq![ValueKind::Map])] }}
-    }}
-    /// each non-skipped field is filled from the (last) entry under exactly its effective key
-    open spec fn represents<V: IntoValue>(self, value: Value<V>) -> bool {{
-        value is Map && ({{ let es = value->Map_0.entries(); true{repr_clauses} }})
-    }}
-'''
-    # loop invariants
+    TPX = (TP + ", ") if TP else ""
     inv = []
     for i, f in enumerate(ns):
         v = f["ident"]
@@ -197,54 +183,45 @@ def gen_struct(s, expanded_path):
         else:
             inv.append(f"                        ({v} is Missing) <==> {P}_last(es, gi, {i}) < 0,   // [C07,C08:{P}_{v}_missing_iff_key_absent]")
         inv.append(f"                        deserr_error__ is None && {P}_last(es, gi, {i}) >= 0 ==> fs_repr::<{f['ty']}, __Deserr_E, V>({v}, es[{P}_last(es, gi, {i})].1.spec_into_value()),   // [C07:{P}_{v}_filled_from_its_effective_key]")
-    for f in s["fields"]:
+    for f in fields:
         if f.get("skip"):
             inv.append(f"                        {f['ident']} is Some,   // [C08:{P}_{f['ident']}_skipped_keeps_its_default]")
+    it = f"it__{loop_no}"
     loop_inv = f'''                    invariant_except_break
-                        gi + it__1.remaining().len() == es.len(),
-                        it__1.remaining() == es.skip(gi),
+                        gi + {it}.remaining().len() == es.len(),
+                        {it}.remaining() == es.skip(gi),
                     invariant
-                        it__1.obeys_prophetic_iter_laws(),
-                        value0 == deserr_value__, value0 is Map, es == value0->Map_0.entries(), p == deserr_location__.path(),
+                        {it}.obeys_prophetic_iter_laws(),
+{ctx_inv}
                         tail == {P}_missing(es, p, {nF}),
-                        full == {P}_trace_upto::<{TP}, __Deserr_E, V>(es, p, es.len() as int) + tail,
+                        full == {P}_trace_upto::<{TPX}__Deserr_E, V>(es, p, es.len() as int) + tail,
                         0 <= gi <= es.len(),
-                        acc_ok(otrace(deserr_error__), ostops(deserr_error__), full, {P}_trace_upto::<{TP}, __Deserr_E, V>(es, p, gi).len() as int, p),   // [C02,C03,C04,C09:{P}_acc]
+                        acc_ok(otrace(deserr_error__), ostops(deserr_error__), full, {P}_trace_upto::<{TPX}__Deserr_E, V>(es, p, gi).len() as int, p),   // [C02,C03,C04,C09:{P}_acc]
                         deserr_error__ is Some ==> otrace(deserr_error__).len() >= 1,   // [C01:{P}_acc_nonempty]
-                        (deserr_error__ is None) <==> {P}_entries_ok::<{TP}, __Deserr_E, V>(es, gi),   // [C01,C02,C09:{P}_acc_none_iff_entries_ok]
+                        (deserr_error__ is None) <==> {P}_entries_ok::<{TPX}__Deserr_E, V>(es, gi),   // [C01,C02,C09:{P}_acc_none_iff_entries_ok]
 ''' + "\n".join(inv) + f'''
                     ensures
                         gi == es.len(),   // [C02,C15:{P}_every_entry_is_examined]
                     decreases es.len() - gi,
 '''
-    body_start = f'''        broadcast use group_derive;
-        let ghost value0 = deserr_value__;
-        let ghost es = value0->Map_0.entries();
-        let ghost p = deserr_location__.path();
-        let ghost tail = {P}_missing(es, p, {nF});
-        let ghost body = {P}_trace_upto::<{TP}, __Deserr_E, V>(es, p, es.len() as int);
-        let ghost full = body + tail;
-        let ghost mut gi: int = 0;
-'''
     loop_start = f'''                    let ghost gi0 = gi;
                     proof {{
                         assert((deserr_key__, deserr_value__) == es[gi0]);
-                        assert(it__1.remaining() == es.skip(gi0 + 1)) by {{
-                            assert(it__1.remaining() == it0.remaining().skip(1));
+                        assert({it}.remaining() == es.skip(gi0 + 1)) by {{
+                            assert({it}.remaining() == it0.remaining().skip(1));
                             assert(es.skip(gi0).skip(1) =~= es.skip(gi0 + 1));
                         }}
-                        lemma_{P}_trace_part::<{TP}, __Deserr_E, V>(es, p, gi0, es.len() as int, tail);
+                        lemma_{P}_trace_part::<{TPX}__Deserr_E, V>(es, p, gi0, es.len() as int, tail);
                         let pc = p.push(Step::Key(es[gi0].0@));
                         assert(p.is_prefix_of(pc));
-                        let d = {P}_trace_upto::<{TP}, __Deserr_E, V>(es, p, gi0).len() as int;
-                        let part = {P}_entry_part::<{TP}, __Deserr_E, V>(es[gi0], p);
+                        let d = {P}_trace_upto::<{TPX}__Deserr_E, V>(es, p, gi0).len() as int;
+                        let part = {P}_entry_part::<{TPX}__Deserr_E, V>(es[gi0], p);
                         assert(part.len() == 1 ==> full[d] == part[0]) by {{ if part.len() == 1 {{ assert(full.subrange(d, d + 1)[0] == full[d]); }} }}
                         // this entry is now being examined: the bookkeeping index moves here, so that a `continue` in the body is
                         // held to the invariants of the *next* iteration
                         gi = gi + 1;
                     }}
 '''
-    # missing pass stepping stones
     steps = []
     steps.append(f"                    let b = body.len() as int;\n                    assert(full == body + {P}_missing(es, p, {nF}));\n                    assert({P}_missing(es, p, 0) =~= Seq::<Ev>::empty());")
     for n_, (i, f, k) in enumerate(req):
@@ -254,13 +231,49 @@ def gen_struct(s, expanded_path):
     if req:
         steps.append(f"                    assert({P}_missing(es, p, {req[0][0]}) =~= Seq::<Ev>::empty());")
     after_loop = "                proof {\n" + "\n".join(steps) + "\n                }\n"
-    dirs = ["@@rewrite strmatch\n", "@@body-start\n" + body_start, "@@loop 1\n" + loop_inv, "@@loop-head 1\n                    broadcast use group_derive;\n                    let ghost it0 = it__1;\n",
-            "@@loop-start 1\n" + loop_start, "@@after-loop 1\n" + after_loop]
-    # accumulator facts between the missing checks (optional anchors)
-    for n_, (i, f, k) in enumerate(req):
-        nxt_stmt = f'if {req[n_ + 1][1]["ident"]}.is_missing()' if n_ + 1 < len(req) else None
-        # the statement following field i's check is the check of the next *non-skipped* field (required or not)
+    ghost = ctx_ghost + f'''        let ghost tail = {P}_missing(es, p, {nF});
+        let ghost body = {P}_trace_upto::<{TPX}__Deserr_E, V>(es, p, es.len() as int);
+        let ghost full = body + tail;
+        let ghost mut gi: int = 0;
+'''
+    dirs = [f"@@loop {loop_no}\n" + loop_inv, f"@@loop-head {loop_no}\n                    broadcast use group_derive;\n                    let ghost it0 = {it};\n",
+            f"@@loop-start {loop_no}\n" + loop_start, f"@@after-loop {loop_no}\n" + after_loop]
     order = [f["ident"] for f in ns]
+    return {"raw": "".join(raw), "dirs": dirs, "ghost": ghost, "keys": keys, "ns": ns, "req": req, "nF": nF, "TP": TP, "TPX": TPX, "order": order}
+
+def gen_struct(s, expanded_path):
+    """-> (raw prelude text for this struct, vspec take block)"""
+    name = s["name"]; P = name.lower()
+    _, tps = rust_item(s)
+    TP = ", ".join(tps)
+    deny = bool(s.get("deny"))
+    ctx_inv = "                        value0 == deserr_value__, value0 is Map, es == value0->Map_0.entries(), p == deserr_location__.path(),"
+    ctx_ghost = '''        let ghost value0 = deserr_value__;
+        let ghost es = value0->Map_0.entries();
+        let ghost p = deserr_location__.path();
+'''
+    g = gen_fields(P, tps, s["fields"], s.get("rename_all"), deny, 1, ctx_inv, ctx_ghost)
+    keys, ns, req, nF, TPX = g["keys"], g["ns"], g["req"], g["nF"], g["TPX"]
+    raw = [f"// ==== derived struct {name}: effective keys {keys} (computed from the description by tools/derive_unit.py), deny_unknown_fields = {deny}\n",
+           f"pub struct {name}<{TP}> {{ " + " ".join(f"pub {f['ident']}: {f['ty']}," for f in s["fields"]) + " }\n", g["raw"]]
+    req_present = "".join(f" && {P}_last(es, es.len() as int, {i}) >= 0" for i, f, k in req)
+    repr_clauses = "".join(f" && ({P}_last(es, es.len() as int, {i}) >= 0 ==> self.{f['ident']}.represents(es[{P}_last(es, es.len() as int, {i})].1.spec_into_value()))" for i, f in enumerate(ns))
+    members = f'''    /// no fault: every entry is fine (an unknown key is a fault exactly under deny_unknown_fields) and every required field is present
+    open spec fn accepts<V: IntoValue>(value: Value<V>) -> bool {{
+        value is Map && ({{ let es = value->Map_0.entries(); {P}_entries_ok::<{TPX}__Deserr_E, V>(es, es.len() as int){req_present} }})
+    }}
+    /// keep-going run: per entry in enumeration order, then one MissingField per absent required field in declaration order
+    open spec fn spec_trace<V: IntoValue>(value: Value<V>, p: Seq<Step>) -> Seq<Ev> {{
+        if value is Map {{ let es = value->Map_0.entries(); {P}_trace_upto::<{TPX}__Deserr_E, V>(es, p, es.len() as int) + {P}_missing(es, p, {nF}) }}
+        else {{ seq![kind_report(value, p, seq![ValueKind::Map])] }}
+    }}
+    /// each non-skipped field is filled from the (last) entry under exactly its effective key
+    open spec fn represents<V: IntoValue>(self, value: Value<V>) -> bool {{
+        value is Map && ({{ let es = value->Map_0.entries(); true{repr_clauses} }})
+    }}
+'''
+    dirs = ["@@rewrite strmatch\n", "@@body-start\n        broadcast use group_derive;\n" + g["ghost"]] + g["dirs"]
+    order = g["order"]
     for idx in range(len(order)):
         nxt = f"if {order[idx + 1]}.is_missing()" if idx + 1 < len(order) else "if let Some(deserr_error__) = deserr_error__"
         upto = idx + 1
@@ -304,6 +317,129 @@ def gen_unit_enum(e, expanded_path):
             f"@@body-start\n        broadcast use group_derive;\n")
     return "".join(raw), take
 
+def tagged_item(e):
+    cattrs = [f'tag = "{e["tag"]}"']
+    if e.get("rename_all"): cattrs.append(f"rename_all = {e['rename_all']}")
+    if e.get("deny"): cattrs.append("deny_unknown_fields")
+    tps = []
+    lines = []
+    for v in e["variants"]:
+        vattrs = []
+        if v.get("rename") is not None: vattrs.append(f'rename = "{v["rename"]}"')
+        if v.get("rename_all"): vattrs.append(f"rename_all = {v['rename_all']}")
+        head = ("    #[deserr(" + ", ".join(vattrs) + ")]\n") if vattrs else ""
+        if v.get("fields") is None:
+            lines.append(head + f"    {v['ident']},")
+        else:
+            fl = []
+            for f in v["fields"]:
+                for t in re.findall(r"\b([A-Z])\b", f["ty"]):
+                    if t not in tps: tps.append(t)
+                fattrs = []
+                if f.get("rename") is not None: fattrs.append(f'rename = "{f["rename"]}"')
+                if f.get("default"): fattrs.append("default")
+                if f.get("skip"): fattrs.append("skip")
+                fl.append((f"#[deserr({', '.join(fattrs)})] " if fattrs else "") + f"{f['ident']}: {f['ty']}")
+            lines.append(head + f"    {v['ident']} {{ " + ", ".join(fl) + " },")
+    return ("#[derive(Deserr)]\n#[deserr(" + ", ".join(cattrs) + ")]\n#[allow(non_snake_case)]\n" + f"pub enum {e['name']}<{', '.join(tps)}> {{\n" + "\n".join(lines) + "\n}\n"), tps
+
+def gen_tagged_enum(e, expanded_path):
+    """internally tagged enum (C10): tag extraction, exact variant selection, then the selected variant's fields only"""
+    name = e["name"]; P = name.lower()
+    _, tps = tagged_item(e)
+    TP = ", ".join(tps); TPX = (TP + ", ") if TP else ""
+    tag = e["tag"]; K = '"' + tag + '"@'
+    deny = bool(e.get("deny"))
+    # by the statement: the container's rename_all renames the variants only; a variant's fields follow the variant's own rename_all
+    vnames = [effective_key(v["ident"], v.get("rename"), e.get("rename_all")) for v in e["variants"]]
+    def lit(k): return '"' + k + '"@'
+    raw = [f"// ==== tagged enum {name}: tag {tag!r}, effective variant names {vnames} (computed from the description by tools/derive_unit.py)\n"]
+    vdefs = []
+    for v in e["variants"]:
+        if v.get("fields") is None: vdefs.append(v["ident"] + ",")
+        else: vdefs.append(v["ident"] + " { " + " ".join(f"{f['ident']}: {f['ty']}," for f in v["fields"]) + " },")
+    raw.append(f"pub enum {name}<{TP}> {{ " + " ".join(vdefs) + " }\n")
+    raw.append(f"/// which variant (declaration order) a tag string selects: exact, case-sensitive match on the effective name\npub open spec fn {P}_variant_of(k: Seq<char>) -> int {{ " +
+               " else ".join(f"if k == {lit(k)} {{ {i} }}" for i, k in enumerate(vnames)) + " else { -1 } }\n")
+    ctx_ghost = f'''        let ghost value0 = deserr_value__;
+        let ghost es0 = value0->Map_0.entries();
+        let ghost p = deserr_location__.path();
+        let ghost ti = first_key_index(es0, {K});
+        let ghost es = es0.remove(ti);
+        let ghost tagv = es0[ti].1.spec_into_value();
+        proof {{ lemma_first_key_index_bounds(es0, {K}); lemma_prefix_push(p, Step::Key({K})); }}
+'''
+    dirs = ["@@rewrite strmatch\n", "@@rewrite ok_or_else\n"]
+    ghosts = [ctx_ghost]
+    acc_arms, trace_arms, repr_arms = [], [], []
+    loop_no = 0
+    body_dirs = []
+    for vi, v in enumerate(e["variants"]):
+        if v.get("fields") is None:
+            acc_arms.append(f"if vi == {vi} {{ true }}")
+            trace_arms.append(f"if vi == {vi} {{ Seq::<Ev>::empty() }}")
+            repr_arms.append(f"(vi == {vi} ==> self is {v['ident']})")
+            continue
+        loop_no += 1
+        VP = f"{P}_{v['ident'].lower()}"
+        ctx_inv = (f"                        value0 == deserr_value__, value0 is Map, es0 == value0->Map_0.entries(), p == deserr_location__.path(),\n"
+                   f"                        ti == first_key_index(es0, {K}), 0 <= ti < es0.len(), es == es0.remove(ti), tagv == es0[ti].1.spec_into_value(), tagv is String, {P}_variant_of(tagv->String_0@) == {vi},")
+        g = gen_fields(VP, tps, v["fields"], v.get("rename_all"), deny, loop_no, ctx_inv, "")
+        raw.append(f"// ---- variant {v['ident']} (selected by {vnames[vi]!r}): effective keys {g['keys']}\n" + g["raw"])
+        # per-variant ghosts get unique names by living in the loop invariants through `tail`/`full`/`body`: declare per variant
+        sfx = f"_{loop_no}"
+        vg = g["ghost"].replace("let ghost tail", f"let ghost tail{sfx}").replace("let ghost body", f"let ghost body{sfx}").replace("let ghost full = body + tail", f"let ghost full{sfx} = body{sfx} + tail{sfx}").replace("let ghost mut gi", f"let ghost mut gi{sfx}")
+        ghosts.append(vg)
+        for d in g["dirs"]:
+            d = re.sub(r"\btail\b", f"tail{sfx}", d); d = re.sub(r"\bfull\b", f"full{sfx}", d); d = re.sub(r"\bbody\b", f"body{sfx}", d)
+            d = re.sub(r"\bgi0\b", f"gz{sfx}", d); d = re.sub(r"\bgi\b", f"gi{sfx}", d)
+            body_dirs.append(d)
+        req, ns, nF = g["req"], g["ns"], g["nF"]
+        req_present = "".join(f" && {VP}_last(es, es.len() as int, {i}) >= 0" for i, f, k in req)
+        acc_arms.append(f"if vi == {vi} {{ {VP}_entries_ok::<{TPX}__Deserr_E, V>(es, es.len() as int){req_present} }}")
+        trace_arms.append(f"if vi == {vi} {{ {VP}_trace_upto::<{TPX}__Deserr_E, V>(es, p, es.len() as int) + {VP}_missing(es, p, {nF}) }}")
+        pat_fields = ", ".join(f["ident"] for f in v["fields"])
+        fr = "".join(f" && ({VP}_last(es, es.len() as int, {i}) >= 0 ==> {f['ident']}.represents(es[{VP}_last(es, es.len() as int, {i})].1.spec_into_value()))" for i, f in enumerate(ns))
+        repr_arms.append(f"(vi == {vi} ==> (self matches {name}::{v['ident']} {{ {pat_fields} }} && (true{fr})))")
+        # stepping stones between the missing checks of this variant: anchors are ambiguous across variants (same field names may recur), so only the generic after-loop block is used
+    members = f'''    //@impl-labels [C04,C10:{P}_tag_selects_exactly_the_named_variant]
+    open spec fn accepts<V: IntoValue>(value: Value<V>) -> bool {{
+        value is Map && ({{
+            let es0 = value->Map_0.entries(); let ti = first_key_index(es0, {K});
+            ti >= 0 && es0[ti].1.spec_into_value() is String && ({{
+                let vi = {P}_variant_of(es0[ti].1.spec_into_value()->String_0@); let es = es0.remove(ti);
+                {" else ".join(acc_arms)} else {{ false }}
+            }})
+        }})
+    }}
+    /// absent tag: MissingField(tag) at the enum; non-string tag: kind error at the tag's own location; a string naming no
+    /// variant: an error at the enum; otherwise the keep-going run of the selected variant's fields over the remaining entries
+    open spec fn spec_trace<V: IntoValue>(value: Value<V>, p: Seq<Step>) -> Seq<Ev> {{
+        if value is Map {{
+            let es0 = value->Map_0.entries(); let ti = first_key_index(es0, {K});
+            if ti < 0 {{ seq![miss_report(p, {K})] }}
+            else if !(es0[ti].1.spec_into_value() is String) {{ seq![kind_report(es0[ti].1.spec_into_value(), p.push(Step::Key({K})), seq![ValueKind::String])] }}
+            else {{
+                let vi = {P}_variant_of(es0[ti].1.spec_into_value()->String_0@); let es = es0.remove(ti);
+                {" else ".join(trace_arms)} else {{ seq![Ev::Report {{ path: p, kind: RKind::Unexpected }}] }}
+            }}
+        }} else {{ seq![kind_report(value, p, seq![ValueKind::Map])] }}
+    }}
+    open spec fn represents<V: IntoValue>(self, value: Value<V>) -> bool {{
+        value is Map && ({{
+            let es0 = value->Map_0.entries(); let ti = first_key_index(es0, {K});
+            ti >= 0 && es0[ti].1.spec_into_value() is String && ({{
+                let vi = {P}_variant_of(es0[ti].1.spec_into_value()->String_0@); let es = es0.remove(ti);
+                {" && ".join(repr_arms)}
+            }})
+        }})
+    }}
+'''
+    dirs.append("@@body-start\n        broadcast use group_derive;\n" + "".join(ghosts))
+    dirs += body_dirs
+    take = f"@@take {expanded_path} :: Deserr<__Deserr_E> for {name}<\n@@subst \"::deserr::\" -> \"\"\n@@members\n{members}@@fn deserialize_from_value\n" + "".join(dirs)
+    return "".join(raw), take
+
 HEADER_SPEC = os.path.join(VERIF, "contracts", "derive_header.vspec.in")
 
 def prepare(repo):
@@ -316,6 +452,9 @@ def prepare(repo):
         raws.append(r); takes.append(t)
     for e in cat.get("unit_enums", []):
         r, t = gen_unit_enum(e, expanded)
+        raws.append(r); takes.append(t)
+    for e in cat.get("tagged_enums", []):
+        r, t = gen_tagged_enum(e, expanded)
         raws.append(r); takes.append(t)
     spec = header.replace("@@STRUCT-PRELUDES@@", "@@raw\n" + "\n".join(raws)).replace("@@STRUCT-TAKES@@", "\n".join(takes))
     out = os.path.join(d, "derive.vspec")
